@@ -581,4 +581,11 @@ class ClientGenerator:
                 if diff:
                     has_diff = True
                     print("\n".join(diff))
+            else:
+                has_diff = True
+                print(f"Only in generated output: {new_file.relative_to(new_dir)}")
+        for old_file in Path(old_dir).rglob("*.py"):
+            if not (Path(new_dir) / old_file.relative_to(old_dir)).exists():
+                has_diff = True
+                print(f"Only in existing output: {old_file}")
         return has_diff
